@@ -94,6 +94,17 @@ class G2:
         self.r = rng
         self.depth = depth
         self.allow_select = allow_select
+        # one dimension of the tree is occasionally LARGE (9..40 positional or named arguments, variants, elements on a
+        # line, lines of a pattern, comment lines, attributes, entries): more than any small fixed-size buffer,
+        # inline vector or bit mask holds.  Used once per generator so that nested structures do not explode.
+        self.bigdim = rng.choice(["pos", "named", "variants", "els", "lines", "clines", "attrs", "entries"]) \
+            if rng.random() < 0.05 else None
+
+    def cnt(self, dim, small):
+        if self.bigdim == dim:
+            self.bigdim = None
+            return self.r.choice([9, 10, 16, 17, 24, 33, 40])
+        return small
 
     # ---- expressions: returns (text_renderer(layout)->str, sexp)
     def ident(self):
@@ -124,10 +135,11 @@ class G2:
 
     def call_args(self, d, term=False):
         r = self.r
-        pos = [self.inline(d, True) for _ in range(r.choice([0, 0, 1, 1, 2, 3]))]
+        pos = [self.inline(d, True) for _ in range(self.cnt("pos", r.choice([0, 0, 1, 1, 2, 3])))]
         # a bare message reference positional followed by ':' would read as a named argument: fine, we never emit ':' after it
         named = []
-        names = r.sample(["x", "opt", "minimumFractionDigits", "type", "k-1"], r.choice([0, 0, 1, 2]))
+        nn = self.cnt("named", r.choice([0, 0, 1, 2]))
+        names = r.sample(["x", "opt", "minimumFractionDigits", "type", "k-1"] + (["n%d" % i for i in range(40)] if nn > 5 else []), nn)
         for nme in names:
             if r.random() < 0.5:
                 named.append((nme, ("str", r.choice(STR_CONTENTS))))
@@ -149,9 +161,10 @@ class G2:
                 sel = ("fn", r.choice(FUNCS), self.call_args(d - 1))
             else:
                 sel = ("term", self.ident(), self.ident(), self.call_args(d - 1, True) if r.random() < 0.5 else None)
-            n = r.randint(1, 4)
+            n = self.cnt("variants", r.randint(1, 4))
             dflt = r.randrange(n)
-            keys = r.sample(["one", "other", "few", "many", "zero", "two", "1", "0", "-1", "1.0", "a", "masculine"], n)
+            keys = r.sample(["one", "other", "few", "many", "zero", "two", "1", "0", "-1", "1.0", "a", "masculine"]
+                            + (["k%d" % i for i in range(20)] + [str(i) for i in range(2, 22)] if n > 12 else []), n)
             variants = []
             for i in range(n):
                 key = keys[i]
@@ -176,7 +189,7 @@ class G2:
     def line(self, d, block_line, allow_placeable_first=True):
         r = self.r
         els = []
-        n = r.randint(1, 3)
+        n = self.cnt("els", r.randint(1, 3))
         for i in range(n):
             if r.random() < 0.35 and d > 0 and (i > 0 or allow_placeable_first):
                 els.append(("p", self.expression(d - 1)))
@@ -194,7 +207,7 @@ class G2:
 
     def pattern(self, d, in_variant=False):
         r = self.r
-        nlines = r.choice([1, 1, 1, 2, 2, 3, 4])
+        nlines = self.cnt("lines", r.choice([1, 1, 1, 2, 2, 3, 4]))
         lines = []
         for i in range(nlines):
             rel = 0 if i == 0 else r.choice([0, 0, 0, 2, 4, 1])
@@ -214,13 +227,13 @@ class G2:
         k = r.random()
         if k < 0.2:
             lvl = r.choice([1, 1, 2, 3])
-            lines = [r.choice(["", "c", "comment é", " leading", "x  ", "#", "a = b"]) for _ in range(r.randint(1, 3))]
+            lines = [r.choice(["", "c", "comment é", " leading", "x  ", "#", "a = b"]) for _ in range(self.cnt("clines", r.randint(1, 3)))]
             return ("comment", lvl, lines)
         comment = None
         if r.random() < 0.25:
             comment = [r.choice(["c", "doc", "", "é 😀"]) for _ in range(r.randint(1, 2))]
         attrs = [(self.r.choice(["at", "title", "aria-label", "x"]) + str(i), self.pattern(self.depth - 1)) for i in
-                 range(r.choice([0, 0, 0, 1, 2]))]
+                 range(self.cnt("attrs", r.choice([0, 0, 0, 1, 2])))]
         if k < 0.75:
             value = self.pattern(self.depth) if (r.random() < 0.9 or not attrs) else None
             return ("msg", self.ident() + str(r.randint(0, 99)), value, attrs, comment)
@@ -228,7 +241,7 @@ class G2:
 
     def resource(self, n=None):
         r = self.r
-        n = n or r.randint(1, 6)
+        n = n or self.cnt("entries", r.randint(1, 6))
         return [self.entry() for _ in range(n)]
 
 
